@@ -489,3 +489,54 @@ func init() {
 	register("both", &h.Scenario{Name: "C04-fullstack-udp-stream3", Prop: "C04", P: 0, F: 0, D: -1, Run: c04WireStream(3, false), Check: c04Oracle(false)})
 	register("both", &h.Scenario{Name: "C04-fullstack-tcp-stream3-cut-and-glued", Prop: "C04", P: 0, F: 0, D: -1, Run: c04WireStream(3, true), Check: c04Oracle(true)})
 }
+
+// c04EveryPair: "arbitrary channel and sequence number": one request with every one of the 65536
+// (channel, number) combinations while number 1 is expected (so that the repetition of the previous
+// number, the expected number and every other number all occur), followed by the expected request;
+// UDP and TCP.
+func c04EveryPair(tcp bool) func() {
+	return func() {
+		network := "udp"
+		if tcp {
+			network = "tcp"
+		}
+		sock := fakesock.New(network)
+		NewGateway(sock, c04Channel)
+		cfg := TCfg(100, 350, 1000000)
+		cfg.UseTCP = tcp
+		t, err := knx.NewTunnelOnSocket(sock, knxnet.TunnelLayerData, cfg)
+		if err != nil {
+			mc.Log(Note("connect failed: " + err.Error()))
+			return
+		}
+		mc.GoEnv("reader", func() {
+			for {
+				m, ok := t.Inbound().Recv2()
+				if !ok {
+					return
+				}
+				mc.Log(Rx{ID: MsgID(m), From: "tunnel"})
+			}
+		})
+		model := &refReceiver{ch: c04Channel, tcp: tcp}
+		id := 0
+		inject := func(ch, seq uint8) {
+			mc.Log(Inj{ch, seq, id})
+			sock.Deliver(&knxnet.TunnelReq{Channel: ch, SeqNumber: seq, Payload: Msg(id)})
+			model.step(ch, seq)
+			id++
+			mc.Sleep(1 * ms)
+		}
+		inject(c04Channel, 0)
+		pair := mc.Choose(65536, mc.Free)
+		inject(uint8(pair>>8), uint8(pair))
+		inject(c04Channel, model.exp)
+		mc.Sleep(5 * ms)
+		t.Close()
+	}
+}
+
+func init() {
+	register("both", &h.Scenario{Name: "C04-udp-every-channel-and-number", Prop: "C04", P: 0, F: 0, D: -1, Run: c04EveryPair(false), Check: c04Oracle(false)})
+	register("both", &h.Scenario{Name: "C04-tcp-every-channel-and-number", Prop: "C04", P: 0, F: 0, D: -1, Run: c04EveryPair(true), Check: c04Oracle(true)})
+}
